@@ -124,7 +124,12 @@ impl binrw::BinWrite for Mso {
         // if we need to encode the string, we need to move the textstart transparently for the
         // user
         let textstart = if self.textstart > 0 {
-            let name = &self.msg[..self.textstart as usize];
+            // textstart may not be a valid boundary (i.e. it was computed by a peer or wrapped
+            // whilst decoding); never slice blindly.
+            let name = self
+                .msg
+                .get(..self.textstart as usize)
+                .unwrap_or(&self.msg);
             let textstart = codepages::to_lossy_bytes(name).len();
 
             textstart as u8
